@@ -42,6 +42,11 @@ Lemma gen_consulted_extensions :
   Gen.consulted_extensions = [bs "8BITMIME"; bs "AUTH"; bs "DSN"; bs "ENHANCEDSTATUSCODES"; bs "SMTPUTF8"; bs "STARTTLS"].
 Proof. vm_compute. reflexivity. Qed.
 
+(* client_120.go SendWithSMTPClient: the loop ranges over the batch itself (`for id, message := range messages`), skips
+   nil entries with continue and stores the error at messages[id] - the index and the slice belong together *)
+Lemma gen_send_loop_indexes_batch : Gen.send_loop_indexes_batch = true.
+Proof. reflexivity. Qed.
+
 (* smtp.go dataCloser.Close reads the whole (possibly multi-line) reply: one reply per command in the model's queue *)
 Lemma gen_eod_reads_full_response : Gen.eod_reads_full_response = true.
 Proof. reflexivity. Qed.
